@@ -280,9 +280,15 @@ def run(chk, tier, jobs, deadline):
                 if cur is None or key < cur[0]:
                     sig_first[g["sig"]] = (key, g, job["variant"])
             elif t == "sample":
-                samples.setdefault(g["cell"], "%s  model: %s  library: %s" % (g["call"], g["model"], g["impl"]))
+                # the sample kept per cell does not depend on which batch happens to finish first
+                k = (job["variant"], job["id"])
+                txt = "%s  model: %s  library: %s" % (g["call"], g["model"], g["impl"])
+                if g["cell"] not in samples or k < samples[g["cell"]][0]:
+                    samples[g["cell"]] = (k, txt)
             elif t == "info":
-                infos.setdefault(g["key"], g["text"])
+                k = (job["variant"], job["id"])
+                if g["key"] not in infos or k < infos[g["key"]][0]:
+                    infos[g["key"]] = (k, g["text"])
 
     with ThreadPoolExecutor(max_workers=max(1, jobs)) as ex:
         futs = {}
@@ -350,7 +356,7 @@ def run(chk, tier, jobs, deadline):
         chk.finding(sig, text, _replay_dict(exes[c["variant"]], c["variant"], c.get("one", ""),
                                              dict(occurrences=len(cs), stderr=c.get("stderr", "")[:3000])))
     for k in sorted(infos):
-        chk.info(k, infos[k])
+        chk.info(k, infos[k][1])
     if incomplete:
         chk.deadline_hit = chk.deadline_hit or not chk.broken
         chk.info("incomplete-batches", "; ".join(incomplete[:8]))
@@ -360,8 +366,8 @@ def run(chk, tier, jobs, deadline):
              "make/does-not-fit/failure", "parse/must-accept/accepted", "parse/must-reject/rejected",
              "parse/either/accepted", "parse/either/rejected", "is_valid/true", "is_valid/false",
              "parse_proto/must-accept/accepted", "compat/must-accept/accepted"]
-    smp = [("%s: %s" % (k, samples[k])) for k in order if k in samples]
-    smp += [("%s: %s" % (k, samples[k])) for k in sorted(samples) if k not in order]
+    smp = [("%s: %s" % (k, samples[k][1])) for k in order if k in samples]
+    smp += [("%s: %s" % (k, samples[k][1])) for k in sorted(samples) if k not in order]
     ru1 = resource.getrusage(resource.RUSAGE_CHILDREN)
     cpu = (ru1.ru_utime + ru1.ru_stime) - (ru0.ru_utime + ru0.ru_stime)
     chk.add_cov(
@@ -388,5 +394,5 @@ def run(chk, tier, jobs, deadline):
                     "checked by the oracle; traces_validated_against_impl = top-level cases (one string through all "
                     "19 parser entry points, or one make tuple through every capacity and back through the parsers)")
     with open(os.path.join(LOG_DIR, "last-%s.json" % tier), "w") as f:
-        json.dump(dict(signatures=sig_count, infos=infos, incomplete=incomplete,
+        json.dump(dict(signatures=sig_count, infos={k: v[1] for k, v in infos.items()}, incomplete=incomplete,
                        crashes=[{k: v for k, v in c.items() if k != "stderr"} for c in crashes]), f, indent=1)
